@@ -43,44 +43,44 @@ Proof.
 Qed.
 Print Assumptions C02_oracle_plain.
 
-(* Round trip WITH name compression: a well-formed message none of whose names (owners, question names, names inside
-   RDATA) has more than 10 labels is packed to wire data that decodes — whatever octets follow it — to a message with
-   the same view, and the compressed encoding is never longer than the advertised (uncompressed) length.
-   [msg_depth_ok] is the exact side condition under which every pointer chain the encoder builds stays within the
-   decoder's limit of 10 hops (a name of k labels needs at most k hops: the compression-table invariant). *)
-Theorem C02_roundtrip_compressed : forall (m : msg) (trailing : list N), wf_msg m -> msg_depth_ok m ->
+(* Round trip WITH name compression, for EVERY well-formed message: it is packed to wire data that decodes — whatever
+   octets follow it — to a message with the same view, and the compressed encoding is never longer than the advertised
+   (uncompressed) length.  A name of k labels needs at most k pointer hops (the compression-table invariant), a
+   well-formed name has at most 127 labels (255 octets), and the decoder follows up to 127 pointers (the limit was 10
+   before the fix of finding K1, when this statement was refuted by a chain of 12 names). *)
+Theorem C02_roundtrip_compressed : forall (m : msg) (trailing : list N), wf_msg m ->
   exists out m', pack_msg (msg_len m) true 0 m = Ok out /\ unpack_msg (out ++ trailing) = Ok m' /\ view m' = view m /\
                  length out <= msg_len m.
-Proof. exact compressed_roundtrip. Qed.
+Proof. exact compressed_roundtrip_all. Qed.
 Print Assumptions C02_roundtrip_compressed.
 
-(* With compression and names of MORE than 10 labels the full statement is FALSE of the faithful model (finding K1): a message the
-   decoder accepts whose compressed encoding the decoder itself rejects (more than 10 pointer hops). *)
+(* ... hence for every message the proxy accepts, with compression *)
+Theorem C02_accepted_compressed : forall (bs : list N) (m : msg), bytes bs -> unpack_msg bs = Ok m ->
+  exists out m', pack_msg (msg_len m) true 0 m = Ok out /\ unpack_msg out = Ok m' /\ view m' = view m.
+Proof.
+  intros bs m Hb Hu. pose proof (unpack_msg_wf bs m Hb Hu) as Hw.
+  destruct (compressed_roundtrip_all m [] Hw) as (out & m' & Hp & Hu' & Hv & _).
+  exists out, m'. rewrite app_nil_r in Hu'. auto.
+Qed.
+Print Assumptions C02_accepted_compressed.
+
+(* The former counterexample (K1) and the extreme case: 127 owner names, each extending the previous one by one label
+   (the last has 127 labels = 255 octets and needs 126 hops), round-trip through the compressing encoder. *)
 Fixpoint deep_names (k : nat) (acc : list N) : list (list N) :=
   match k with
   | O => []
-  | S k' => let n := [1; 97 + N.of_nat (12 - k)]%N ++ acc in n :: deep_names k' n
+  | S k' => let n := [1; 97 + N.of_nat (k mod 26)]%N ++ acc in n :: deep_names k' n
   end.
-Definition deep_msg : msg :=
+Definition deep_msg (k : nat) : msg :=
   mkMsg (mkHeader 1 true 0 false false true true false false 0) []
-        (map (fun n => mkRR n 1 1 60 4 (RA [10;0;0;1]%N)) (deep_names 12 [])) [] [].
-
-Definition deep_out : list N :=
-  Eval vm_compute in match pack_msg (msg_len deep_msg) true 0 deep_msg with Ok o => o | _ => [] end.
-Definition deep_bs : list N :=
-  Eval vm_compute in match pack_msg (msg_len deep_msg) false 0 deep_msg with Ok o => o | _ => [] end.
-
-Theorem C02_deep_chain_refuted :
-  exists m out, (exists bs, bytes bs /\ unpack_msg bs = Ok m) /\
-                pack_msg (msg_len m) true 0 m = Ok out /\ unpack_msg out = Err ETooManyPtr.
-Proof.
-  exists deep_msg, deep_out. split; [exists deep_bs; split|split].
-  - apply bytes_forallb. vm_compute. reflexivity.
-  - vm_compute. reflexivity.
-  - vm_compute. reflexivity.
-  - vm_compute. reflexivity.
-Qed.
-Print Assumptions C02_deep_chain_refuted.
+        (map (fun n => mkRR n 1 1 60 4 (RA [10;0;0;1]%N)) (deep_names k [])) [] [].
+Definition deep_ok (k : nat) : bool :=
+  match pack_msg (msg_len (deep_msg k)) true 0 (deep_msg k) with
+  | Ok out => match unpack_msg out with Ok m' => view_eqb m' (deep_msg k) | _ => false end
+  | _ => false
+  end.
+Example C02_deep_chain_ok : deep_ok 12 = true /\ deep_ok 127 = true.
+Proof. split; vm_compute; reflexivity. Qed.
 
 (* non-vacuity of the hypotheses: a concrete accepted message with a compression pointer *)
 Example C02_example :
